@@ -57,9 +57,19 @@ def mutate(r, d):
 	return bytes(d)
 
 
+PARSES = [0]
+KEPT = {}
+
+
 def check_parse(ctx, d, direction, how):
 	dm = msgs.data_msg
-	new = dm.TxMsg() if direction == "tx" else dm.RxMsg()
+	PARSES[0] += 1
+	if PARSES[0] % 3 == 0:
+		# one message object parsing datagram after datagram: nothing of the previous one may survive
+		new = KEPT.setdefault(direction, dm.TxMsg() if direction == "tx" else dm.RxMsg())
+		ctx.count("parsed_into_a_reused_object")
+	else:
+		new = dm.TxMsg() if direction == "tx" else dm.RxMsg()
 	try:
 		new.parse_msg(bytearray(d))
 	except ValueError:
